@@ -2,6 +2,7 @@ package main
 
 import (
 	"fmt"
+	"go/token"
 	"go/types"
 
 	"golang.org/x/tools/go/ssa"
@@ -191,4 +192,126 @@ func (in *Interp) summarize1(th *Thread, fv FuncV, args []Value) Value {
 		merged = m
 	}
 	return merged
+}
+
+// ---- if-conversion: small side-effect-free triangles/diamonds on a symbolic condition are merged into ite
+// values instead of forking the path ----
+
+func pureBlock(b *ssa.BasicBlock) bool {
+	if len(b.Preds) != 1 || len(b.Instrs) == 0 || len(b.Instrs) > 12 {
+		return false
+	}
+	for i, ins := range b.Instrs {
+		if i == len(b.Instrs)-1 {
+			_, ok := ins.(*ssa.Jump)
+			return ok
+		}
+		switch x := ins.(type) {
+		case *ssa.BinOp:
+			if x.Op == token.QUO || x.Op == token.REM {
+				return false
+			}
+		case *ssa.UnOp:
+			if x.Op == token.MUL || x.Op == token.ARROW {
+				return false
+			}
+		case *ssa.Convert:
+			if _, _, ok := typeWidth(x.X.Type()); !ok {
+				return false
+			}
+			if _, _, ok := typeWidth(x.Type()); !ok {
+				return false
+			}
+		case *ssa.ChangeType, *ssa.Extract, *ssa.Field, *ssa.DebugRef:
+		default:
+			return false
+		}
+	}
+	return false
+}
+
+func (in *Interp) runPure(f *Frame, b *ssa.BasicBlock) {
+	for _, ins := range b.Instrs[:len(b.Instrs)-1] {
+		switch x := ins.(type) {
+		case *ssa.BinOp:
+			f.env[x] = in.binop(x.Op, x.X.Type(), in.get(f, x.X), in.get(f, x.Y), x.Y.Type())
+		case *ssa.UnOp:
+			f.env[x] = in.unop(x, in.get(f, x.X))
+		case *ssa.Convert:
+			f.env[x] = in.convert(x.X.Type(), x.Type(), in.get(f, x.X))
+		case *ssa.ChangeType:
+			f.env[x] = in.get(f, x.X)
+		case *ssa.Extract:
+			f.env[x] = in.get(f, x.Tuple).(TupleV)[x.Index]
+		case *ssa.Field:
+			f.env[x] = in.get(f, x.X).(StructV).f[x.Field]
+		}
+	}
+}
+
+// tryIfConvert handles `if c {pure}` / `if c {pure} else {pure}` joins; returns false if the shape does not apply.
+func (in *Interp) tryIfConvert(f *Frame, c *Term) bool {
+	b := f.block
+	t, e := b.Succs[0], b.Succs[1]
+	var join *ssa.BasicBlock
+	var fromT, fromE *ssa.BasicBlock // predecessor of join on the true / false side
+	switch {
+	case pureBlock(t) && t.Succs[0] == e:
+		join, fromT, fromE = e, t, b
+	case pureBlock(e) && e.Succs[0] == t:
+		join, fromT, fromE = t, b, e
+	case pureBlock(t) && pureBlock(e) && t.Succs[0] == e.Succs[0]:
+		join, fromT, fromE = t.Succs[0], t, e
+	default:
+		return false
+	}
+	if fromT == fromE {
+		return false
+	}
+	// the join must distinguish the two edges
+	it, ie := -1, -1
+	for i, p := range join.Preds {
+		if p == fromT {
+			if it >= 0 {
+				return false
+			}
+			it = i
+		}
+		if p == fromE {
+			if ie >= 0 {
+				return false
+			}
+			ie = i
+		}
+	}
+	if it < 0 || ie < 0 {
+		return false
+	}
+	if fromT != b {
+		in.runPure(f, fromT)
+	}
+	if fromE != b {
+		in.runPure(f, fromE)
+	}
+	var phis []*ssa.Phi
+	var vals []Value
+	for _, ins := range join.Instrs {
+		phi, ok := ins.(*ssa.Phi)
+		if !ok {
+			break
+		}
+		m, ok := in.iteValue(c, in.get(f, phi.Edges[it]), in.get(f, phi.Edges[ie]))
+		if !ok {
+			return false
+		}
+		phis = append(phis, phi)
+		vals = append(vals, m)
+	}
+	for i, phi := range phis {
+		f.env[phi] = vals[i]
+	}
+	f.prev = b
+	f.block = join
+	f.ip = len(phis)
+	return true
 }
